@@ -38,18 +38,7 @@ def generate(seed, tier, enlarged=False):
         cases.append(sched.gen_case(rng, max_procs=4 if tier == 'quick' else 8, scripted=scripted))
     # decimal-grid stream: global_time_precision p, timesteps and intervals on the 10^-p grid
     for i in range(n // 3):
-        p = rng.choice([1, 1, 2])
-        g = 10 ** p
-        c = sched.gen_case(rng, max_procs=4, scripted=False)
-        for pr in c['procs']:
-            if pr['ts'][0] == 'const':
-                pr['ts'][1] = rng.randint(1, 25) / g
-            else:
-                pr['ts'][1] = [rng.randint(1, 25) / g for _ in pr['ts'][1]]
-        c['calls'] = [[rng.randint(0, 40) / g, k] for _, k in c['calls']]
-        c['t0'] = 0
-        c['precision'] = p
-        cases.append(c)
+        cases.append(sched.gen_decimal_case(rng))
     return cases
 
 
